@@ -13,7 +13,7 @@ from ..impl import build, mk_layer_rule, mk_layered_architecture, mkrule, plan_g
 from ..refmodel import Unparsable, label_model, parse_layer_message, parse_rule_message, spec_to_json
 from ..scan import observed, scan
 from ..scanmodel import source
-from ..spaces import NAMINGS, nodes, rename, trees
+from ..spaces import NAMINGS, nodes, rename, subject_choices, trees
 from . import c05, c17
 from .c04 import materialise as c04_materialise
 from .c08 import tree_space
@@ -37,11 +37,13 @@ ASSUMPTIONS = [
     "messages are compared after parsing with the anchored line grammar and mapping every quoted name back",
 ]
 
-RENAMINGS = ["plain", "adversarial", "adversarial2", "adversarial3", "hyphen"]
+RENAMINGS = ["lengths", "adversarial", "adversarial2", "adversarial3", "hyphen", "case"]
 NAMING_MAPS = dict(NAMINGS)
 NAMING_MAPS["adversarial2"] = {"r": "a", "a": "a_", "b": "aa", "c": "a_a", "d": "aaa", "e": "ab", "p": "a__", "q": "aab"}
 # a nested module r.a.b next to a sibling package r.a_b: '.' vs. any other single character
 NAMING_MAPS["adversarial3"] = {"r": "r", "a": "a", "b": "b", "c": "a_b", "d": "a-b", "e": "aXb"}
+# siblings that differ in letter case only or sort differently with and without regard to case
+NAMING_MAPS["case"] = {"r": "r", "a": "alpha", "b": "Beta", "c": "ALPHA", "d": "beta", "e": "Alpha_b", "p": "P", "q": "q"}
 T7 = (((), ()), (), ((),))  # r.a{a,b}, r.b, r.c{a}
 for _m in NAMING_MAPS.values():
     assert len(set(_m.values())) == len(_m), "renaming must be injective"
@@ -99,6 +101,11 @@ def _specs(ns):
         # the root module itself as single subject or object
         _SPECS[key] += [sp for sp in rule_specs(ns, max_s=1, max_o=1, antichain=False, exclude=(), aliases=True)
                         if ns[0] in sp["subj"] or (sp.get("obj") and ns[0] in sp["obj"])]
+        # the 'anything' aliases with three subjects (a module, one of its sub modules and a sibling, ...)
+        for subj in subject_choices(ns, 3, False, (ns[0],)):
+            if len(subj) == 3:
+                for imp in (True, False):
+                    _SPECS[key].append(dict(verb="should_not", imp=imp, exc=False, sk="named", subj=subj, ok=None, obj=None, anything=True))
     return _SPECS[key]
 
 
@@ -447,7 +454,8 @@ def _tuplify(t):
 
 def run_shard(shard, tier, seed):
     global RENAMINGS
-    RENAMINGS = ["plain", "adversarial", "adversarial2", "adversarial3", "hyphen"] + (["unicode"] if shard.get("tier") == "thorough" else [])
+    # collision-free control naming: 'lengths' (components of 1-12 characters) in the quick tier, 'plain' in addition in the thorough one
+    RENAMINGS = ["lengths", "adversarial", "adversarial2", "adversarial3", "hyphen", "case"] + (["plain", "unicode"] if shard.get("tier") == "thorough" else [])
     res = Result(shard["bound"])
     part = shard["part"]
     if part in ("rules", "layers"):
